@@ -884,6 +884,27 @@ class GroupFamily final : public vf::Family {
     v.nontrivial = cx.waiter_during_last_done > 0;
     v.hash = vf::Mix64(c.ProgHash(), ex.trace_hash);
     v.tags.push_back(c.H(0) % 4 == 3 ? "OneShotEvent" : "WaitGroup");
+    {
+      static const char* const kW[] = {"waiter:Wait", "waiter:WaitFor", "waiter:WaitUntil", "waiter:co_await", "waiter:co_await sticky",
+                                       "waiter:co_await on(e)"};
+      unsigned seen = 0;
+      for (std::size_t i = 0; i < c.Records(); ++i) {
+        seen |= 1u << (c.Rec(i)[0] % 6);
+      }
+      for (int k = 0; k < 6; ++k) {
+        if ((seen >> k) & 1u) {
+          v.tags.push_back(kW[k]);
+        }
+      }
+      if (c.H(0) % 4 != 3) {
+        if (c.H(2) % 4 != 0) {
+          v.tags.push_back(c.H(3) % 16 != 0 ? "futures:attached+consumed" : "futures:attached");
+        }
+        if (c.H(1) % 4 != 0) {
+          v.tags.push_back("Add/Done-workers");
+        }
+      }
+    }
     char b[96];
     std::snprintf(b, sizeof b, "waiters=%d released=%d switches=%u", cx.waiters_registered, cx.released, ex.switches);
     v.detail = b;
